@@ -27,6 +27,29 @@ class Vec(tuple):
     """a tuple subclass that overrides both + directions (element-wise)"""
     def __add__(self, o): return Vec(a + b for a, b in zip(self, o))
     def __radd__(self, o): return Vec(a + b for a, b in zip(o, self))
+class Money:
+    """a user object with an attribute literally named `value` (the proxy keeps its target under that name too)"""
+    def __init__(self, value=5): self.value = value
+    def __eq__(self, o): return isinstance(o, Money) and self.value == o.value
+    def __lt__(self, o): return self.value < (o.value if isinstance(o, Money) else 7)
+    def __hash__(self): return 1000 + self.value
+    def __bool__(self): return False
+    def __len__(self): return 2
+    def __getitem__(self, i): return [self.value, 'cents'][i]
+    def __iter__(self): return iter([self.value, 'cents'])
+    def __contains__(self, x): return x == 'cents' or x == 3
+    def __str__(self): return '$%d' % self.value
+    def __repr__(self): return 'Money(%d)' % self.value
+    def __int__(self): return self.value * 100
+    def __float__(self): return self.value / 4
+    def __index__(self): return 1
+    def __add__(self, o): return Money(self.value + (o.value if isinstance(o, Money) else 1))
+    def __radd__(self, o): return Money(self.value + 2)
+    def __neg__(self): return Money(-self.value)
+    def __abs__(self): return 'abs-money'
+    def __format__(self, spec): return 'M' + format(self.value, spec)
+    def __trunc__(self): return 77
+    def __round__(self, n=None): return 'rounded-money'
 class Decline:
     """declines everything"""
     def __add__(self, o): return NotImplemented
@@ -36,7 +59,7 @@ class Decline:
 '''
 REPR = {"int": "3", "negint": "-2", "zero": "0", "float": "2.5", "bool": "True", "str": "'ab'", "list": "[1, 2]",
         "tuple": "(1, 2)", "dict": "{'a': 1}", "set": "{1, 2}", "none": "None", "complex": "(1+2j)",
-        "sub": "Vec((10, 20))", "fwd": "Fwd()", "refl": "Refl()", "decline": "Decline()"}
+        "sub": "Vec((10, 20))", "fwd": "Fwd()", "refl": "Refl()", "decline": "Decline()", "valobj": "Money(5)"}
 
 BIN = {"add": operator.add, "sub": operator.sub, "mul": operator.mul, "truediv": operator.truediv,
        "floordiv": operator.floordiv, "mod": operator.mod, "divmod": divmod, "pow": operator.pow,
@@ -78,7 +101,7 @@ def unwrap(v):
     from pedal.sandbox.result import SandboxResult
     seen = 0
     while type(v) is SandboxResult and seen < 5:
-        v = object.__getattribute__(v, "value")
+        v = v._actual_value            # the documented way to reach the proxied object
         seen += 1
     return v
 
